@@ -687,7 +687,13 @@ func (s *programState) receiveFrom(destination parser.Destination, amount *big.I
 				break
 			}
 
-			err = handler(destinationClause.To, utils.MinBigInt(cap, remainingAmount))
+			// a negative cap receives nothing
+			amountToReceive := utils.MinBigInt(cap, remainingAmount)
+			if amountToReceive.Cmp(big.NewInt(0)) == -1 {
+				amountToReceive.Set(big.NewInt(0))
+			}
+
+			err = handler(destinationClause.To, amountToReceive)
 			if err != nil {
 				return err
 			}
